@@ -17,6 +17,7 @@ import (
 	"errors"
 	"fmt"
 	"io"
+	osexec "os/exec"
 	"strings"
 
 	"harness/engc"
@@ -456,7 +457,31 @@ func (w *world) cbcRoundtrip() *sim.Violation {
 	if !bytes.Equal(raw, raw0) {
 		return viol("input_modified", "SaltBySecretCBCDecrypt", "reuseCipherText=false but the cipher text was modified")
 	}
+	// with buffer reuse the result must be the same plaintext
+	pt, err = cryptz.SaltBySecretCBCDecrypt(raw, w.secret, true)
+	if err != nil || !bytes.Equal(pt, w.plain) {
+		return viol("roundtrip", "SaltBySecretCBCDecrypt", "reuseCipherText=true: decrypt of reference envelope gave %x, %v", pt, err)
+	}
+	// the text form as `openssl enc -a` prints it: wrapped at 64 columns
+	wrapped := wrap64(want)
+	pt, err = w.decrypt([]byte(wrapped))
+	if err != nil || !bytes.Equal(pt, w.plain) {
+		return viol("roundtrip", "Decrypt", "Decrypt fails on the same base64 wrapped at 64 columns (as openssl prints it): %v", err)
+	}
 	return nil
+}
+
+func wrap64(s string) string {
+	var b strings.Builder
+	for i := 0; i < len(s); i += 64 {
+		e := i + 64
+		if e > len(s) {
+			e = len(s)
+		}
+		b.WriteString(s[i:e])
+		b.WriteByte(10)
+	}
+	return b.String()
 }
 
 func (w *world) gcmRoundtrip() *sim.Violation {
@@ -489,6 +514,10 @@ func (w *world) gcmRoundtrip() *sim.Violation {
 	}
 	if !bytes.Equal(raw, raw0) {
 		return viol("input_modified", "SaltBySecretGCMDecrypt", "reuseCipherText=false but the cipher text was modified")
+	}
+	pt, err = cryptz.SaltBySecretGCMDecrypt(raw, w.secret, w.aad, true)
+	if err != nil || !bytes.Equal(pt, w.plain) {
+		return viol("roundtrip", "SaltBySecretGCMDecrypt", "reuseCipherText=true: decrypt of reference envelope gave %x, %v", pt, err)
 	}
 	return nil
 }
@@ -881,6 +910,70 @@ func extra(out *sim.WorkerOut) []*sim.Case {
 		}
 	}
 	out.Probes["stream_fault_positions_enumerated"] += n
+	bad = append(bad, opensslInterop(out)...)
+	return bad
+}
+
+// opensslInterop: when an `openssl` binary is present (it is in this sandbox, it is not required),
+// a handful of messages go both ways through the real `openssl enc -aes-256-cbc -md md5`:
+// what cryptz.Encrypt produced must be decrypted by openssl, what openssl produced (base64
+// wrapped at 64 columns, its own random salt) must be decrypted by cryptz.Decrypt, and the
+// harness's reference derivation must reproduce openssl's bytes for openssl's salt.
+func opensslInterop(out *sim.WorkerOut) []*sim.Case {
+	bin, err := osexec.LookPath("openssl")
+	if err != nil {
+		out.Notes = append(out.Notes, "openssl binary not found: interoperability is decided against the Go standard library reference only")
+		return nil
+	}
+	var bad []*sim.Case
+	fail := func(v *sim.Violation, plen int, secret string) {
+		bad = append(bad, &sim.Case{Property: "C09", Engine: "C", Params: map[string]int{"scen": 0, "plen": plen, "slen": len(secret), "openssl": 1}, Violation: v})
+	}
+	run := func(in []byte, args ...string) ([]byte, error) {
+		cmd := osexec.Command(bin, args...)
+		cmd.Stdin = bytes.NewReader(in)
+		var o bytes.Buffer
+		cmd.Stdout = &o
+		err := cmd.Run()
+		return o.Bytes(), err
+	}
+	r := sim.NewRng(20240102)
+	n := 0
+	for _, plen := range []int{0, 1, 15, 16, 17, 100, 1000} {
+		for _, secret := range []string{"s3cret", "a much longer pass phrase with spaces 0123456789"} {
+			plain := r.Bytes(plen)
+			scrand.Reset()
+			ct, err := cryptz.Encrypt(plain, secret)
+			if err != nil {
+				continue
+			}
+			got, err := run(append(append([]byte{}, ct...), 10), "enc", "-d", "-aes-256-cbc", "-md", "md5", "-a", "-A", "-pass", "pass:"+secret)
+			if err != nil && len(got) == 0 && plen > 0 {
+				// could not run the tool at all (old build, FIPS, ...): not a verdict
+				out.Notes = append(out.Notes, "openssl enc -d failed to run: "+err.Error())
+				return bad
+			}
+			n++
+			if !bytes.Equal(got, plain) {
+				fail(viol("wire_format", "Encrypt", "`openssl enc -d -aes-256-cbc -md md5 -a -A` does not recover the plaintext (%d bytes) from cryptz.Encrypt output", plen), plen, secret)
+			}
+			theirs, err := run(plain, "enc", "-aes-256-cbc", "-md", "md5", "-a", "-pass", "pass:"+secret)
+			if err != nil || len(theirs) == 0 {
+				continue
+			}
+			n++
+			pt, derr := cryptz.Decrypt(theirs, secret)
+			if derr != nil || !bytes.Equal(pt, plain) {
+				fail(viol("wire_format", "Decrypt", "cryptz.Decrypt does not recover the plaintext (%d bytes) from `openssl enc -aes-256-cbc -md md5 -a` output: %v", plen, derr), plen, secret)
+			}
+			raw, berr := base64.StdEncoding.DecodeString(strings.ReplaceAll(string(theirs), "\n", ""))
+			if berr == nil && len(raw) >= 16 && !bytes.Equal(refCBC(plain, []byte(secret), raw[8:16]), raw) {
+				out.Notes = append(out.Notes, "REFERENCE MISMATCH: the harness's EVP_BytesToKey/AES reference does not reproduce openssl's output")
+				fail(viol("reference_mismatch", "Encrypt", "harness reference differs from openssl for a %d-byte plaintext", plen), plen, secret)
+			}
+		}
+	}
+	out.Probes["openssl_binary_interop_messages"] += n
 	return bad
 }
 
